@@ -749,8 +749,8 @@ func getPlan(tier string, layers []*layer) *plan {
 		}
 	}
 	start := time.Now()
-	wd := time.AfterFunc(8*time.Minute, func() {
-		fmt.Fprintln(os.Stderr, "C07: discovery BFS did not reach a fixpoint in 8 minutes")
+	wd := time.AfterFunc(12*time.Minute, func() {
+		fmt.Fprintln(os.Stderr, "C07: discovery BFS did not reach a fixpoint in 12 minutes")
 		os.Exit(3)
 	})
 	n := len(layers)
@@ -1414,7 +1414,7 @@ func layer2(V, T int) *layer {
 
 func buildLayers(tier string) []*layer {
 	if tier == "thorough" {
-		return []*layer{layer1(8), layer2(4, 2), layer2(3, 3)}
+		return []*layer{layer1(7), layer2(4, 2), layer2(3, 3)}
 	}
 	return []*layer{layer1(5), layer2(3, 2)}
 }
